@@ -161,9 +161,17 @@ pub trait PacketTrait: Serialize {
 
     /// Length in bytes used when calling `to_writer_with_header`.
     fn write_len_with_header(&self) -> usize {
-        let mut sum = self.packet_header().write_len();
-        sum += self.write_len();
-        sum
+        let original_header = self.packet_header();
+        let write_len = self.write_len();
+
+        // Mirrors `to_writer_with_header`: for fixed and partial lengths the header is re-derived
+        // from the current body length, the stored header may be stale.
+        let header_len = match original_header.packet_length().maybe_len() {
+            Some(_) => original_header.version().header_len(write_len),
+            None => original_header.write_len(),
+        };
+
+        header_len + write_len
     }
 }
 
